@@ -12,22 +12,42 @@
        down in [reqs] (so a lock dropped or downgraded in Update, flush,
        flushDB, the readers, the configuration handlers or clear changes the
        table and fails the check; so does a new access site nobody classified);
-    3. every one of those sites except Close holds confMu, the writers of the
-       statistics state in write mode: the bodies of any two operations of
-       which one changes the state never overlap ([stats_ops_serialised]), and
-       no two operations are ever about to touch the same field with one of
-       them writing ([stats_ops_race_free]).
+    3. every one of those sites holds confMu (since bf01866 Close as well, for
+       its whole body and exclusively), the writers of the statistics state and
+       Close in write mode: the bodies of any two operations of which one
+       changes the state never overlap ([stats_ops_serialised]), and no two
+       operations are ever about to touch the same field with one of them
+       writing ([stats_ops_race_free]);
+    4. (round 4) the bbolt write transaction on the statistics database is a
+       lock of its own ([dbw], the translator's abstract lock
+       "stats.StatsCtx.db.writer": bbolt admits one writer, Begin(true) blocks
+       until the other transaction has finished).  The acquisition sites of
+       the three statistics locks (Gen/LockTableAcq.v, projected) are exactly
+       the listed ones ([acq_reqs]), the operations as event lists take their
+       locks at those sites, and the sites pass the gate-lock criterion of
+       Proofs/LockTableGate.v: the opposite orders currMu . dbw (flush) and
+       dbw . currMu (GET stats, TopClientsIP, Close) are kept apart by confMu,
+       which the flush and Close hold exclusively.  Hence no interleaving of
+       any number of these operations deadlocks ([stats_ops_no_deadlock]); in
+       particular a clean shutdown at the turn of the hour
+       ([shutdown_during_flush]).  With Close as it was before bf01866 (write
+       transaction first, then currMu, no confMu) the machine does deadlock:
+       [close_before_fix_deadlocks] gives the blocked state.
 
     The database pointer StatsCtx.db is an [atomic.Pointer] (checked by the
-    harness through reflection); bbolt serialises transactions itself. *)
+    harness through reflection). *)
 From Coq Require Import List String Bool Arith.
-From AGH Require Import Base.Conc Model.Guards Proofs.Conc Proofs.LockTable Gen.LockTable.
+From AGH Require Import Base.Conc Model.Guards Proofs.Conc Proofs.ConcGate Proofs.LockTable
+  Proofs.LockTablePairs Proofs.LockTableGate Gen.LockTable Gen.LockTableAcq.
 Import ListNotations.
 Local Open Scope string_scope.
 Local Open Scope list_scope.
 
 Definition confMu : lock := "stats.StatsCtx.confMu".
 Definition currMu : lock := "stats.StatsCtx.currMu".
+(** bbolt's single-writer lock of the statistics database: held from
+    db.Begin(true) to Commit / Rollback, and taken by db.Close() *)
+Definition dbw : lock := "stats.StatsCtx.db.writer".
 Definition f_curr : field := "stats.StatsCtx.curr".
 Definition f_limit : field := "stats.StatsCtx.limit".
 Definition f_enabled : field := "stats.StatsCtx.enabled".
@@ -38,11 +58,11 @@ Definition f_shouldCount : field := "stats.StatsCtx.shouldCountClient".
 
 Definition stats_fields : list field :=
   [f_curr; f_limit; f_enabled; f_ignored; f_filename; f_unitIDGen; f_shouldCount].
-Definition stats_locks : list lock := [confMu; currMu].
+Definition stats_locks : list lock := [confMu; currMu; dbw].
 
 Definition is_stats_access (a : access) : bool := existsb (String.eqb (a_field a)) stats_fields.
 
-(** the held set projected onto the two statistics locks *)
+(** the held set projected onto the three statistics locks *)
 Definition project (h : held) : held :=
   filter (fun y => existsb (String.eqb (fst y)) stats_locks) h.
 
@@ -74,6 +94,10 @@ Definition cW : held := [(confMu, W)].
 Definition cR : held := [(confMu, R)].
 Definition cWuW : held := [(confMu, W); (currMu, W)].
 Definition cRuR : held := [(confMu, R); (currMu, R)].
+(** ... inside a write transaction on the database *)
+Definition cWuWd : held := [(confMu, W); (currMu, W); (dbw, W)].
+Definition cRuRd : held := [(confMu, R); (currMu, R); (dbw, W)].
+Definition cWuRd : held := [(confMu, W); (currMu, R); (dbw, W)].
 
 Definition reqs : list req := [
   (* Update: configuration read and unit changed inside one confMu section *)
@@ -85,11 +109,13 @@ Definition reqs : list req := [
   Req "(*stats.StatsCtx).flush" f_unitIDGen false [];
   Req "(*stats.StatsCtx).flush" f_curr false cWuW;
   Req "(*stats.StatsCtx).flush" f_limit false cWuW;
-  Req "(*stats.StatsCtx).flushDB" f_curr true cWuW;
+  Req "(*stats.StatsCtx).flushDB" f_curr true cWuWd;
   (* readers *)
   Req "(*stats.StatsCtx).handleStats$1" f_limit false cR;
+  Req "(*stats.StatsCtx).loadUnits" f_curr false cRuRd;
+  Req "(*stats.StatsCtx).loadUnits" f_unitIDGen false cRuRd;
+  (* the current unit is serialised after the transaction was rolled back *)
   Req "(*stats.StatsCtx).loadUnits" f_curr false cRuR;
-  Req "(*stats.StatsCtx).loadUnits" f_unitIDGen false cRuR;
   Req "(*stats.StatsCtx).dataFromUnits" f_ignored false cR;
   Req "(*stats.StatsCtx).TopClientsIP" f_limit false cR;
   Req "(*stats.StatsCtx).TopClientsIP" f_enabled false cR;
@@ -115,8 +141,9 @@ Definition reqs : list req := [
   Req "(*stats.StatsCtx).openDB" f_filename false cW;
   Req "(*stats.StatsCtx).clear" f_unitIDGen false cWuW;
   Req "(*stats.StatsCtx).clear" f_curr true cWuW;
-  (* shutdown: the current unit is read under currMu only *)
-  Req "(*stats.StatsCtx).Close" f_curr false [(currMu, R)]
+  (* shutdown: the whole of Close inside confMu, exclusively (bf01866); the
+     current unit is read under currMu inside the write transaction *)
+  Req "(*stats.StatsCtx).Close" f_curr false cWuRd
 ].
 
 Definition held_eq (a b : held) : bool := subset_held a b && subset_held b a.
@@ -150,14 +177,21 @@ Proof. vm_compute. reflexivity. Qed.
 
 (** * 3. whole operations *)
 
-(** every access to the mutable state holds confMu, except Close's *)
+(** every access to the mutable state holds confMu (no exception any more:
+    Close takes it since bf01866) *)
 Definition mutable_fields : list field := [f_curr; f_limit; f_enabled; f_ignored].
 Definition is_close (r : req) : bool := String.eqb (r_fn r) "(*stats.StatsCtx).Close".
 
 Lemma state_accesses_inside_confMu :
-  forallb (fun r => negb (existsb (String.eqb (r_field r)) mutable_fields) || is_close r ||
+  forallb (fun r => negb (existsb (String.eqb (r_field r)) mutable_fields) ||
                     holds (r_held r) confMu) reqs = true.
 Proof. vm_compute. reflexivity. Qed.
+
+(** Close is listed and holds confMu exclusively at every one of its accesses *)
+Lemma close_holds_confMu_W :
+  existsb is_close reqs = true /\
+  forallb (fun r => negb (is_close r) || holds_w (r_held r) confMu) reqs = true.
+Proof. vm_compute. split; reflexivity. Qed.
 
 (** every operation that changes the state holds confMu in write mode for all
     its accesses to the state: Update, flush/flushDB, PUT config, setLimit, clear *)
@@ -211,14 +245,20 @@ Qed.
 Definition p_update : list event :=
   [Acq confMu W; Rd f_enabled; Rd f_limit; Acq currMu W; Rd f_curr; Rd f_curr; Wr f_curr;
    Rel currMu W; Rel confMu W].
+(** the hourly flush: clock read, confMu, currMu, then flushDB's write
+    transaction, inside which the unit is swapped *)
 Definition p_flush : list event :=
-  [Rd f_unitIDGen; Acq confMu W; Acq currMu W; Rd f_curr; Rd f_limit; Rd f_curr; Wr f_curr;
-   Rel currMu W; Rel confMu W].
+  [Rd f_unitIDGen; Acq confMu W; Acq currMu W; Rd f_curr; Rd f_limit; Rd f_curr; Acq dbw W; Wr f_curr;
+   Rel dbw W; Rel currMu W; Rel confMu W].
+(** GET /control/stats: loadUnits opens its (writable) transaction first, then
+    takes currMu; the transaction is rolled back before the current unit is
+    serialised *)
 Definition p_get_stats : list event :=
-  [Acq confMu R; Rd f_limit; Acq currMu R; Rd f_curr; Rd f_unitIDGen; Rel currMu R; Rd f_ignored;
-   Rel confMu R].
+  [Acq confMu R; Rd f_limit; Acq dbw W; Acq currMu R; Rd f_curr; Rd f_unitIDGen; Rel dbw W; Rd f_curr;
+   Rel currMu R; Rd f_ignored; Rel confMu R].
 Definition p_top_clients : list event :=
-  [Acq confMu R; Rd f_limit; Rd f_enabled; Acq currMu R; Rd f_curr; Rel currMu R; Rel confMu R].
+  [Acq confMu R; Rd f_limit; Rd f_enabled; Acq dbw W; Acq currMu R; Rd f_curr; Rel dbw W; Rd f_curr;
+   Rel currMu R; Rel confMu R].
 Definition p_write_disk_config : list event :=
   [Acq confMu R; Rd f_ignored; Rd f_limit; Rd f_enabled; Rel confMu R].
 Definition p_stats_info : list event := [Acq confMu R; Rd f_enabled; Rd f_limit; Rel confMu R].
@@ -226,14 +266,24 @@ Definition p_should_count : list event := [Acq confMu R; Rd f_shouldCount; Rd f_
 Definition p_put_config : list event :=
   [Acq confMu W; Wr f_ignored; Wr f_limit; Wr f_enabled; Rel confMu W].
 Definition p_set_limit : list event := [Acq confMu W; Wr f_enabled; Wr f_limit; Rel confMu W].
-(** clear under confMu: POST stats_reset, and the legacy handler with interval 0 *)
+(** clear under confMu: POST stats_reset, and the legacy handler with interval
+    0; an empty write transaction and db.Close() (both wait for bbolt's writer
+    lock) before the file is removed *)
 Definition p_clear : list event :=
-  [Acq confMu W; Rd f_filename; Rd f_filename; Acq currMu W; Rd f_unitIDGen; Wr f_curr; Rel currMu W;
-   Rel confMu W].
+  [Acq confMu W; Acq dbw W; Rel dbw W; Acq dbw W; Rel dbw W; Rd f_filename; Rd f_filename;
+   Acq currMu W; Rd f_unitIDGen; Wr f_curr; Rel currMu W; Rel confMu W].
 Definition p_disable_and_clear : list event :=
-  [Acq confMu W; Wr f_enabled; Rd f_filename; Rd f_filename; Acq currMu W; Rd f_unitIDGen; Wr f_curr;
-   Rel currMu W; Rel confMu W].
-Definition p_close : list event := [Acq currMu R; Rd f_curr; Rd f_curr; Rel currMu R].
+  [Acq confMu W; Wr f_enabled; Acq dbw W; Rel dbw W; Acq dbw W; Rel dbw W; Rd f_filename; Rd f_filename;
+   Acq currMu W; Rd f_unitIDGen; Wr f_curr; Rel currMu W; Rel confMu W].
+(** Close as it is since bf01866: confMu for the whole body, the write
+    transaction, currMu for reading while the current unit is serialised and
+    put; commit, db.Close() (bbolt's writer lock once more), confMu released *)
+Definition p_close : list event :=
+  [Acq confMu W; Acq dbw W; Acq currMu R; Rd f_curr; Rd f_curr; Rel currMu R; Rel dbw W;
+   Acq dbw W; Rel dbw W; Rel confMu W].
+(** Close as it was before bf01866: no confMu *)
+Definition p_close_before_fix : list event :=
+  [Acq dbw W; Acq currMu R; Rd f_curr; Rd f_curr; Rel currMu R; Rel dbw W; Acq dbw W; Rel dbw W].
 
 Definition stats_ops : list (list event) :=
   [p_update; p_flush; p_get_stats; p_top_clients; p_write_disk_config; p_stats_info; p_should_count;
@@ -281,9 +331,8 @@ Lemma sections_well_locked :
 Proof. vm_compute. reflexivity. Qed.
 
 (** "any two of these operations are serialised": in no reachable state are
-    two of them inside their confMu sections unless both only read (Close,
-    which takes currMu only, has no section: it is covered by
-    [stats_ops_race_free]). *)
+    two of them inside their confMu sections unless both only read (Close
+    included: its whole body is one write section). *)
 Theorem stats_ops_serialised : forall progs,
   Forall (fun p => In p (map (sections None) stats_ops)) progs ->
   forall s, reachable (init progs) s -> ~ race s.
@@ -344,3 +393,195 @@ Lemma reset_is_one_section :
   one_write_section p_update = true /\ one_write_section (tl p_flush) = true /\
   one_write_section p_put_config = true /\ one_write_section p_set_limit = true.
 Proof. vm_compute. repeat split. Qed.
+
+(** * The write transaction as a lock: acquisition sites, no deadlock *)
+
+(** The acquisition sites of the three statistics locks, with the statistics
+    locks held there (the table lists ALL locks held; the others are projected
+    away: serverLock around Update, controlLock around the handlers, ...). *)
+Definition acquires_stats (s : acq_site) : bool := existsb (String.eqb (fst (s_acq s))) stats_locks.
+
+Definition project_site (s : acq_site) : acq_site :=
+  AcqSite (s_root s) (s_fn s) (project (s_held s)) (s_acq s) (s_pos s).
+
+Definition stats_sites : list acq_site := map project_site (filter acquires_stats acquisitions).
+
+Record areq := AReq { ar_fn : string; ar_held : held; ar_acq : lock * mode }.
+
+Definition acq_reqs : list areq := [
+  (* confMu is always the first statistics lock taken *)
+  AReq "(*stats.StatsCtx).Update" [] (confMu, W);
+  AReq "(*stats.StatsCtx).flush" [] (confMu, W);
+  AReq "(*stats.StatsCtx).Close" [] (confMu, W);
+  AReq "(*stats.StatsCtx).handleStatsConfig" [] (confMu, W);
+  AReq "(*stats.StatsCtx).handlePutStatsConfig" [] (confMu, W);
+  AReq "(*stats.StatsCtx).handleStatsReset$1" [] (confMu, W);
+  AReq "(*stats.StatsCtx).handleStats$1" [] (confMu, R);
+  AReq "(*stats.StatsCtx).handleStatsInfo$1" [] (confMu, R);
+  AReq "(*stats.StatsCtx).handleGetStatsConfig$1" [] (confMu, R);
+  AReq "(*stats.StatsCtx).WriteDiskConfig" [] (confMu, R);
+  AReq "(*stats.StatsCtx).TopClientsIP" [] (confMu, R);
+  AReq "(*stats.StatsCtx).ShouldCount" [] (confMu, R);
+  (* currMu: before the transaction in the writers of the unit ... *)
+  AReq "(*stats.StatsCtx).Update" cW (currMu, W);
+  AReq "(*stats.StatsCtx).flush" cW (currMu, W);
+  AReq "(*stats.StatsCtx).clear" cW (currMu, W);
+  (* ... inside it in the readers and in Close *)
+  AReq "(*stats.StatsCtx).loadUnits" [(dbw, W); (confMu, R)] (currMu, R);
+  AReq "(*stats.StatsCtx).Close" [(confMu, W); (dbw, W)] (currMu, R);
+  (* the write transaction (and db.Close, which waits for it) *)
+  AReq "(*stats.StatsCtx).flushDB" cWuW (dbw, W);
+  AReq "(*stats.StatsCtx).loadUnits" cR (dbw, W);
+  AReq "(*stats.StatsCtx).clear" cW (dbw, W);
+  AReq "(*stats.StatsCtx).Close" cW (dbw, W);
+  AReq "(*stats.StatsCtx).Close$1" cW (dbw, W)
+].
+
+Definition amatches (r : areq) (s : acq_site) : bool :=
+  String.eqb (s_fn s) (ar_fn r) && lm_eqb (s_acq s) (ar_acq r) && held_eq (s_held s) (ar_held r).
+
+Definition acq_listed (s : acq_site) : bool := existsb (fun r => amatches r s) acq_reqs.
+
+(** the acquisition sites that are not as listed (for the failure report) *)
+Definition unlisted_acquisitions : list (string * string) :=
+  map (fun s => ((s_fn s ++ " acquires " ++ fst (s_acq s))%string, s_pos s))
+      (filter (fun s => negb (acq_listed s)) stats_sites).
+
+Lemma stats_acquisitions_as_listed : forallb acq_listed stats_sites = true.
+Proof. vm_compute. reflexivity. Qed.
+
+Lemma stats_acq_reqs_present :
+  forallb (fun r => existsb (amatches r) stats_sites) acq_reqs = true.
+Proof. vm_compute. reflexivity. Qed.
+
+(** The gate-lock criterion on these sites.  Global ranking: confMu, currMu,
+    the transaction.  The sites that descend under it (currMu taken inside the
+    transaction: loadUnits, Close) can only be occupied together with sites
+    whose lock set does not conflict with theirs, and those are ordered by
+    confMu, the transaction, currMu. *)
+Definition stats_rank0 : lock -> nat := rank_of [(confMu, 1); (currMu, 2); (dbw, 3)].
+Definition stats_rkd (_ : acq_site) : list (string * nat) := [(confMu, 1); (dbw, 2); (currMu, 3)].
+
+Lemma stats_sites_gated : gated_with stats_rank0 stats_rkd stats_sites = true.
+Proof. vm_compute. reflexivity. Qed.
+
+(** the cycle is there: under the global ranking alone the sites do not pass *)
+Lemma stats_sites_not_ranked : forallb (site_ascending stats_rank0) stats_sites = false.
+Proof. vm_compute. reflexivity. Qed.
+
+Lemma stats_ops_take_locks_at_sites : forallb (conforms_sites stats_sites []) stats_ops = true.
+Proof. vm_compute. reflexivity. Qed.
+
+(** Any number of instances of the operations, in any mix and interleaving:
+    no reachable state of the lock machine (writer preference included) is
+    deadlocked. *)
+Theorem stats_ops_no_deadlock : forall progs,
+  Forall (fun p => In p stats_ops) progs ->
+  forall s, reachable (init progs) s -> ~ deadlocked s.
+Proof.
+  intros progs HF. apply (gated_no_deadlock stats_rank0 stats_rkd stats_sites stats_sites_gated).
+  rewrite Forall_forall in *. intros p Hp.
+  pose proof stats_ops_take_locks_at_sites as H. rewrite forallb_forall in H. apply H. apply HF. exact Hp.
+Qed.
+
+(** every cycle among the statistics acquisition sites contains two sites
+    that cannot be occupied at the same time *)
+Lemma stats_cycles_conflict : no_compatible_cycle stats_sites.
+Proof. exact (gated_cycles_conflict stats_rank0 stats_rkd stats_sites stats_sites_gated). Qed.
+
+(** * Clean shutdown at the turn of the hour *)
+
+(** Close, the hourly flush and any number of updates (and of the other
+    operations), started together: Close is one confMu write section like the
+    flush and Update, so (by [stats_ops_serialised]) their bodies never
+    overlap: the execution is flush; Close or Close; flush with the updates
+    before, between or after; no two of them are ever about to touch a field
+    with one writing; and no interleaving blocks for good. *)
+Theorem shutdown_during_flush :
+  conforms_tight stats_table [] p_close = true /\
+  conforms_sites stats_sites [] p_close = true /\
+  one_write_section p_close = true /\ one_write_section (tl p_flush) = true /\
+  one_write_section p_update = true /\
+  forall progs, Forall (fun p => In p stats_ops) progs ->
+    (forall s, reachable (init progs) s -> ~ race s) /\
+    (forall s, reachable (init (map (sections None) progs)) s -> ~ race s) /\
+    (forall s, reachable (init progs) s -> ~ deadlocked s).
+Proof.
+  split; [vm_compute; reflexivity|]. split; [vm_compute; reflexivity|].
+  split; [vm_compute; reflexivity|]. split; [vm_compute; reflexivity|].
+  split; [vm_compute; reflexivity|].
+  intros progs HF. split; [exact (stats_ops_race_free progs HF)|]. split.
+  - apply stats_ops_serialised. rewrite Forall_forall in *. intros p Hp.
+    apply in_map_iff in Hp as (q & <- & Hq). apply in_map. apply HF. exact Hq.
+  - exact (stats_ops_no_deadlock progs HF).
+Qed.
+
+(** Before bf01866 Close did not take confMu: write transaction, then currMu.
+    Its sites together with the others do not pass the criterion ... *)
+Definition sites_before_fix : list acq_site :=
+  [AcqSite "" "(*stats.StatsCtx).Close" [] (dbw, W) "internal/stats/stats.go";
+   AcqSite "" "(*stats.StatsCtx).Close" [(dbw, W)] (currMu, R) "internal/stats/stats.go"] ++
+  filter (fun s => negb (String.eqb (s_fn s) "(*stats.StatsCtx).Close") &&
+                   negb (String.eqb (s_fn s) "(*stats.StatsCtx).Close$1")) stats_sites.
+
+Lemma close_before_fix_ungated :
+  conforms_sites sites_before_fix [] p_close_before_fix = true /\
+  conforms_sites sites_before_fix [] p_flush = true /\
+  gated_with stats_rank0 stats_rkd sites_before_fix = false.
+Proof. vm_compute. repeat split. Qed.
+
+(** ... and the machine deadlocks: the flush holds confMu and currMu and has
+    announced itself for the write transaction, Close holds the transaction
+    and waits for currMu.  (The flush keeps confMu: every later Update blocks
+    as well.) *)
+Theorem close_before_fix_deadlocks :
+  exists s, reachable (init [p_flush; p_close_before_fix]) s /\ deadlocked s.
+Proof.
+  eexists; split.
+  - unfold init, p_flush, p_close_before_fix; simpl.
+    eapply reach_front. { apply step_fst; apply ts_rd. }
+    eapply reach_front. { apply step_fst; apply ts_announce. }
+    eapply reach_front. { apply step_fst; apply ts_acq_w; reflexivity. }
+    eapply reach_front. { apply step_fst; apply ts_announce. }
+    eapply reach_front. { apply step_fst; apply ts_acq_w; reflexivity. }
+    eapply reach_front. { apply step_fst; apply ts_rd. }
+    eapply reach_front. { apply step_fst; apply ts_rd. }
+    eapply reach_front. { apply step_fst; apply ts_rd. }
+    eapply reach_front. { apply step_snd; apply ts_announce. }
+    eapply reach_front. { apply step_snd; apply ts_acq_w; reflexivity. }
+    eapply reach_front. { apply step_fst; apply ts_announce. }
+    apply reach_refl.
+  - split.
+    + eexists; split; [left; reflexivity|discriminate].
+    + intros th [<-|[<-|[]]] _; [apply blocked_w|apply blocked_r]; vm_compute; reflexivity.
+Qed.
+
+(** With a third thread: an Update that arrives then blocks on confMu, which
+    the flush never releases. *)
+Lemma step_thd :
+  forall lt lt' x y th th' post, tstep lt th lt' th' ->
+    step (ST lt (x :: y :: th :: post)) (ST lt' (x :: y :: th' :: post)).
+Proof. intros lt lt' x y th th' post H; exact (step_thread lt lt' [x; y] th th' post H). Qed.
+
+Theorem close_before_fix_blocks_updates :
+  exists s, reachable (init [p_flush; p_close_before_fix; p_update]) s /\ deadlocked s.
+Proof.
+  eexists; split.
+  - unfold init, p_flush, p_close_before_fix, p_update; simpl.
+    eapply reach_front. { apply step_fst; apply ts_rd. }
+    eapply reach_front. { apply step_fst; apply ts_announce. }
+    eapply reach_front. { apply step_fst; apply ts_acq_w; reflexivity. }
+    eapply reach_front. { apply step_fst; apply ts_announce. }
+    eapply reach_front. { apply step_fst; apply ts_acq_w; reflexivity. }
+    eapply reach_front. { apply step_fst; apply ts_rd. }
+    eapply reach_front. { apply step_fst; apply ts_rd. }
+    eapply reach_front. { apply step_fst; apply ts_rd. }
+    eapply reach_front. { apply step_snd; apply ts_announce. }
+    eapply reach_front. { apply step_snd; apply ts_acq_w; reflexivity. }
+    eapply reach_front. { apply step_fst; apply ts_announce. }
+    eapply reach_front. { apply step_thd; apply ts_announce. }
+    apply reach_refl.
+  - split.
+    + eexists; split; [left; reflexivity|discriminate].
+    + intros th [<-|[<-|[<-|[]]]] _; [apply blocked_w|apply blocked_r|apply blocked_w]; vm_compute; reflexivity.
+Qed.
